@@ -768,23 +768,31 @@ Proof.
   right. cbn [fst snd]. unfold eof0 in Ee. b2p. tauto.
 Qed.
 
-Lemma name_run_bound bs : 0 <= name_run bs <= len bs.
+Lemma name_run_bound tb bs : 0 <= name_run tb bs <= len bs.
 Proof.
-  induction bs as [|c t IH]; cbn [name_run]; [change (len (@nil Z)) with 0; lia|]. rewrite len_cons. destruct (is_tagend c); lia.
+  induction bs as [|c t IH]; cbn [name_run]; [change (len (@nil Z)) with 0; lia|]. rewrite len_cons. destruct (is_tagend c); [lia|].
+  destruct (match tb with [] => false | _ :: _ => prefixb tb (c :: t) end); lia.
+Qed.
+
+(* with delimiters the name can only be shorter *)
+Lemma name_run_le tb bs : name_run tb bs <= name_run [] bs.
+Proof.
+  induction bs as [|c t IH]; cbn [name_run]; [lia|]. destruct (is_tagend c); [lia|].
+  pose proof (name_run_bound [] t). destruct (match tb with [] => false | _ :: _ => prefixb tb (c :: t) end); lia.
 Qed.
 
 (* the view of the tag name inside an end-tag token v of buffer buf: data[2:n] *)
-Definition endtag_name_view (buf : list Z) (v : sl) : sl := mkSl (so v + 2) (name_run (skipz 2 (view_bytes buf v))).
+Definition endtag_name_view (tb : list Z) (buf : list Z) (v : sl) : sl := mkSl (so v + 2) (name_run tb (skipz 2 (view_bytes buf v))).
 
-Definition endtag_post (z : lx) (r : sl * sl * lx) : Prop :=
+Definition endtag_post (tb : list Z) (z : lx) (r : sl * sl * lx) : Prop :=
   let '(v, t', z'') := r in
-  shifted_low z v (endtag_name_view (lbuf z) v) z'' /\ inview t' v /\ lx_wf z'' /\ so t' = so v + 2 /\
+  shifted_low z v (endtag_name_view tb (lbuf z) v) z'' /\ inview t' v /\ lx_wf z'' /\ so t' = so v + 2 /\
   exists k, 0 <= k /\ so v + 2 + k <= so v + sn v <= so v + 2 + k + 1 /\
             sn t' = trim_end_len (view_bytes (lbuf z) (mkSl (so v + 2) k)) /\
             (so v + sn v = so v + 2 + k + 1 -> peekz (lbuf z) (so v + 2 + k) = Some 62).
 
 Lemma shift_endtag_spec cf z has : cfg_ok cf -> lx_wf z -> lstart z + 2 <= lpos z ->
-  safe (shift_endtag cf z has) (fun r => endtag_post z (fst r)).
+  safe (shift_endtag cf z has) (fun r => endtag_post (tb cf) z (fst r)).
 Proof.
   intros Hcf Hw Hpre. unfold shift_endtag.
   destruct (safe_inv _ _ (endtag_loop_spec cf z has Hcf Hw (fuel_of z) ltac:(apply fuel_enough; reflexivity || lia))) as ([r hr] & Er & Hr).
@@ -803,9 +811,9 @@ Proof.
   { destruct Hw as ((d & Hd) & Hs1 & Hp1). unfold lx_wf. rewrite (lx_len_same z z' B1), B1. split; [eauto|lia]. }
   assert (Hsn : 2 <= sn v) by lia.
   replace (2 <=? sn v) with true by (symmetry; apply Z.leb_le; exact Hsn). cbn [safe endtag_post].
-  set (n := name_run (skipz 2 (view_bytes (lbuf z) v))).
+  set (n := name_run (tb cf) (skipz 2 (view_bytes (lbuf z) v))).
   assert (Hnb : 0 <= n <= sn v - 2).
-  { unfold n. pose proof (name_run_bound (skipz 2 (view_bytes (lbuf z) v))) as Hb.
+  { unfold n. pose proof (name_run_bound (tb cf) (skipz 2 (view_bytes (lbuf z) v))) as Hb.
     rewrite len_skipz in Hb by (rewrite len_view_bytes by lia; lia). rewrite len_view_bytes in Hb by lia. lia. }
   (* the text view was taken n bytes before the end of the token, n = 0 or 1 *)
   rewrite lexeme_from_spec in Ht by (eauto using adv_wf || (rewrite (adv_lstart _ _ Ha); lia)). injection Ht as <-.
